@@ -1,4 +1,5 @@
 import PmtilesModel.Gen.Facts
+import PmtilesModel.Obligations.CLI
 /-! Facts obligations for C20, extracted from `sync.go` / `makesync.go` by the AST reader
     (`none` = pattern not found = unknown, not an alarm): the shape the model of `Sync` assumes. -/
 namespace Pm.Obligations.C20
@@ -26,5 +27,10 @@ theorem wg_add_before_go : allNotFalse Facts.wgAddBeforeGo = true := by decide
 theorem first_range : isOr 16383 Facts.syncFirstRangeEnd = true := by decide
 /-- `syncFileOf` uses 1000-byte units -/
 theorem block_unit : isOr 1000 Facts.makesyncBlockUnit = true := by decide
+
+/-- `pmtiles makesync` / `pmtiles sync` (main.go): block size in kB as given, `--dry-run` as given -/
+theorem makesync_call : CLI.callOK "Makesync:makesync" ["logger", "version", "Makesync.Input", "Makesync.BlockSizeKb"] = true := by decide
+theorem sync_call : CLI.callOK "Sync:sync" ["logger", "Sync.Existing", "Sync.New", "Sync.DryRun"] = true := by decide
+theorem sync_errors_fatal : (CLI.fatalOK "Makesync:makesync" && CLI.fatalOK "Sync:sync") = true := by decide
 
 end Pm.Obligations.C20
